@@ -47,7 +47,7 @@ API_NAMES = ['Locator', 'FinalConstruct', 'Dispatcher', 'Runtime', 'Sts', 'Mts',
 # not usable as model identifiers in a dictionary draw: names of the harness' own C++ (namespaces of
 # the mock runtime / recorder, members of the mock component and interface structs), macros of the
 # standard headers, identifiers reserved to the C++ implementation
-HARNESS_NAMES = {'xt', 'vf', 'vs', 'dzn_meta', 'dzn_runtime', 'dzn_locator', 'check_bindings', 'connect',
+HARNESS_NAMES = {'xt', 'vf', 'vs', 'vf_inner_meta', 'vf_inner_event', 'dzn_meta', 'dzn_runtime', 'dzn_locator', 'check_bindings', 'connect',
                  'NULL', 'EOF', 'assert', 'errno', 'stdin', 'stdout', 'stderr', 'TRUE', 'FALSE', 'linux',
                  'unix', 'main', 'argc', 'argv', 'S'}
 
@@ -80,6 +80,10 @@ def dict_words():
     name and that neither the harness nor a listed finding excludes."""
     bad = CXX_KEYWORDS | GENERATED_LOCALS | HARNESS_NAMES | harness_words()
     def ok(w):
+        # all-lower-case words are left to the parser-level generator: at namespace scope of a C++
+        # translation unit they collide with C library / POSIX globals (select, index, time, link, ...)
+        if w.islower() and w.isalpha():
+            return False
         return w not in bad and '__' not in w and not (w[0] == '_' and (len(w) == 1 or w[1].isupper())) \
             and len(w) <= 24
     short = [w for w in dictionary.words('short') if ok(w)]
